@@ -85,7 +85,7 @@ PROPS["C06"] = {
     "level_text": "Theorems C06_merge_injective (lookup key determines the tuple: any byte strings, arities, empty values), "
                   "C06_routes_own (every arrival order: each record reaches a pipeline created from exactly its own tuple, hence "
                   "its own id / tag / directory / metric labels), C06_id_roundtrip (splitId (joinId ks) = ks: recovery re-attaches "
-                  "queues), C06_id_injective, C06_id_nonempty, C06_dir_injective (under the stated MD5-tail hypothesis), proved in "
+                  "queues), C06_id_injective, C06_id_nonempty, C06_dir_injective (under the stated MD5-tail hypothesis), C06_queue_dir_recognised_for_every_mode (an entry of the queue root is taken for a queue directory by its file type, for all 4096 settings of the permission / set-id / sticky bits, and a regular file never is; legacy_F29: the test before the repair looked at the others-read bit), proved in "
                   "Lean 4; legacy_* theorems keep the pre-repair collisions as witnesses. Tied to the code by differential runs "
                   "through the real orchestrator / hybridbuffer / counter set and four regenerated source facts.",
     "level_note": "Trusted: Lean kernel + 3 standard axioms; MD5 tail collision-freeness is a hypothesis; tag distinctness is "
